@@ -954,9 +954,8 @@ def rule_devderiv(ctx):
 
 def rule_coefslice(ctx):
     """The parameter vector of the GLM holds the intercept first and the coefficients after it.  Cost and gradient describe one
-    objective only if they cut it the same way: every slice of the parameter vector in `TweedieProblem::cost` and in
-    `TweedieProblem::gradient` (the part that enters the linear predictor, the part that is penalised, the part of the
-    gradient the penalty is added to) has the same range.  `p.slice(s![..n_features])` in one and `p.slice(s![offset..])` in
+    objective only if they cut it the same way: every slice that takes part in the penalty in `TweedieProblem::cost` and in
+    `TweedieProblem::gradient` (the part that is penalised, the part of the gradient the penalty is added to) has the same range.  `p.slice(s![..n_features])` in one and `p.slice(s![offset..])` in
     the other penalises the intercept in the gradient and the last coefficient not at all."""
     res = RuleResult("R-C12-coefslice", "TweedieProblem::cost and ::gradient cut the parameter vector (and the gradient buffer) with one and the same range")
     F = ctx.facts()
@@ -971,7 +970,33 @@ def rule_coefslice(ctx):
         key = fn_key(fn)
         res.instance(key)
         got = set()
+        # only the slices that take part in the penalty: those in a statement that mentions alpha (or a local computed from
+        # it), and those bound to a local that such a statement uses
+        body0 = strip(fn["body"])
+        stmts0 = list(body0.get("stmts") or []) + ([body0["e"]] if body0.get("e") is not None else [])
+        tainted = set()
+        def mentions_alpha(e):
+            return any((z.get("k") == "Field" and z.get("name") == "alpha") or (z.get("k") == "Path" and (z.get("name") == "alpha" or z.get("local") in tainted)) for z in walk(e))
+        grew = True
+        while grew:
+            grew = False
+            for st in stmts0:
+                for y in walk(st):
+                    if y.get("k") == "LetStmt" and y.get("init") is not None and y["pat"].get("k") == "Bind" and y["pat"]["local"] not in tainted and mentions_alpha(y["init"]):
+                        tainted.add(y["pat"]["local"])
+                        grew = True
+        pen_stmts = [st for st in stmts0 if mentions_alpha(st)]
+        used = set(z.get("local") for st in pen_stmts for z in walk(st) if z.get("k") == "Path" and "local" in z)
+        relevant = set()
+        for st in stmts0:
+            if st in pen_stmts:
+                relevant |= set(id(z) for z in walk(st))
+            for y in walk(st):
+                if y.get("k") == "LetStmt" and y.get("init") is not None and y["pat"].get("k") == "Bind" and y["pat"]["local"] in used:
+                    relevant |= set(id(z) for z in walk(y["init"]))
         for y in walk(fn["body"]):
+            if id(y) not in relevant:
+                continue
             if y.get("k") == "MethodCall" and y["name"] in ("slice", "slice_mut", "slice_move") and y["args"]:
                 # the s![..] macro: the range expressions inside it
                 for z in walk(y["args"][0]):
